@@ -100,7 +100,7 @@ fn ref_apply(t: &Top, r: &mut RefTop, m: &Msg, uids: &BTreeMap<*const Node, usiz
                 r.st.bal[0] = add(r.st.bal[0], v(*f));
             }
             head.push("execute");
-            let mut it = Interp { uids, calls: vec![], ks: vec![] };
+            let mut it = Interp::new(&t.w, uids);
             let res = it.run(root, &r.st);
             calls.extend(it.calls);
             let (st2, _) = res?;
@@ -193,7 +193,7 @@ fn multi(nmsgs: usize, tree_opts: Opts) {
     };
     // reference: the messages in the given order, each seeing its predecessors' effects
     let mut rt = RefTop {
-        st: RefState { markers: BTreeSet::new(), bal: t.w.bal.clone() },
+        st: RefState::new(t.w.bal.clone()),
         ubal: t.ubal,
         vbal: t.vbal,
         new_contracts: 0,
@@ -334,16 +334,16 @@ fn helpers() {
 pub fn scenarios(tier: &str) -> Vec<Scenario> {
     let mut v = vec![];
     v.push(Scenario::new("execute_multi_2_msgs", &["multi_ok", "multi_err"], || {
-        multi(2, Opts { max_depth: 1, max_nodes: 2, max_children: 1, vary_output: false, vary_ids: false })
+        multi(2, Opts { max_depth: 1, max_nodes: 2, max_children: 1, vary_output: false, vary_ids: false, reply_subs: false, inst_leaves: false })
     }));
     v.push(Scenario::new("sudo_and_wasm_sudo", &["sudo_ok", "sudo_err"], sudo_atomic));
     v.push(Scenario::new("executor_helpers", &["helper_ok", "helper_err"], helpers));
     if tier == "thorough" {
         v.push(Scenario::new("execute_multi_3_msgs", &["multi_ok", "multi_err"], || {
-            multi(3, Opts { max_depth: 1, max_nodes: 2, max_children: 1, vary_output: false, vary_ids: false })
+            multi(3, Opts { max_depth: 1, max_nodes: 2, max_children: 1, vary_output: false, vary_ids: false, reply_subs: false, inst_leaves: false })
         }));
         v.push(Scenario::new("execute_multi_2_msgs_deeper_trees", &["multi_ok", "multi_err"], || {
-            multi(2, Opts { max_depth: 2, max_nodes: 3, max_children: 2, vary_output: false, vary_ids: false })
+            multi(2, Opts { max_depth: 2, max_nodes: 3, max_children: 2, vary_output: false, vary_ids: false, reply_subs: false, inst_leaves: false })
         }));
     }
     v
